@@ -23,14 +23,17 @@ from vlib import core, gen, known, msgharness as mh, mutvals, refcodec
 PROPERTY = "C17"
 RULE = ("operations = encode of valid and of singly mutated assignments, decode of valid / truncated / corrupted "
         "(incl. invalid UTF-8, unknown keys) / random PDUs, layer decode, and loading of valid and slightly "
-        "non-conforming documents, over generated descriptions; each executed strict, non-strict (run-time flip), "
-        "strict again, and in a born-non-strict process.  Non-trivial = strict and non-strict outcomes differ; "
+        "non-conforming documents and descriptions (one non-conforming DIAG-CODED-TYPE), the command line front end "
+        "in-process (start_cli with/without --no-strict on good, broken and missing files), layer decode on services "
+        "differing only in NRC-CONST alternatives or a PHYS-CONST sub-function, over generated descriptions; each executed "
+        "strict, non-strict (run-time flip), strict again - once with separately loaded databases per mode and once on one "
+        "database object used under both modes - and in a born-non-strict process.  Non-trivial = strict and non-strict outcomes differ; "
         "distinct = digest of the operation")
 ASSUMPTIONS = [
     "outcome = normalised repr of the result or (exception class, message); memory addresses are masked",
     "the born-non-strict worker clears odxtools.exceptions.strict_mode before the package __init__ runs (importlib spec trick, no repository hook)",
 ]
-MUST_HIT = ["op:cli", "cli:tool-raised", "cli:tool-returned", "bad-desc:strict-differs", "bad-desc:str-enc", "op:multi-layer-decode", "op:encode", "op:encode-mutated", "op:decode", "op:decode-corrupt", "op:layer-decode", "op:load-bad",
+MUST_HIT = ["same-database:strict-differs", "op:cli", "cli:tool-raised", "cli:tool-returned", "bad-desc:strict-differs", "bad-desc:str-enc", "op:multi-layer-decode", "op:encode", "op:encode-mutated", "op:decode", "op:decode-corrupt", "op:layer-decode", "op:load-bad",
             "strict-differs", "strict-ok"]
 
 ADDR = re.compile(r"0x[0-9a-fA-F]{6,}")
@@ -204,11 +207,40 @@ def nrc_service_ops(draw) -> list:
     return ops
 
 
+def physconst_service_ops(draw) -> list:
+    """services that share their CODED-CONST bytes and differ only in a PHYS-CONST "sub-function" (and positive
+    responses built the same way); operations: layer decode of every service's own request"""
+    from hypothesis import strategies as st
+    u8 = {"t": "std", "bt": "A_UINT32", "bl": 8, "enc": None, "hl": None}
+    sid = draw(st.integers(1, 0x3E))
+    n = draw(st.integers(2, 3))
+    subs = draw(st.lists(st.integers(0, 255), min_size=n, max_size=n, unique=True))
+    lin = draw(st.booleans())
+
+    def dop(i, sub=False):
+        compu = {"c": "LINEAR", "n0": 1, "n1": 1, "d": 1} if (sub and lin) else {"c": "IDENTICAL"}
+        return {"k": "simple", "id": f"d{i}", "dct": dict(u8), "compu": compu, "pt": "A_INT32" if (sub and lin) else "A_UINT32"}
+    msgs = []
+    for i, sv in enumerate(subs):
+        msgs.append({"kind": "request", "id": f"rq{i}", "params": [
+            {"pk": "const", "name": "sid", "pos": 0, "bit": 0, "dct": dict(u8), "v": sid},
+            {"pk": "physconst", "name": "sub", "pos": 1, "bit": 0, "dop": dop("sub", True), "v": sv + (1 if lin else 0)},
+            {"pk": "value", "name": "arg", "pos": 2, "bit": 0, "dop": dop(f"a{i}"), "default": None}]})
+    ops = []
+    for i, sv in enumerate(subs):
+        data = bytes([sid, sv, draw(st.integers(0, 255))])
+        ops.append({"op": "multi-layer-decode", "msgs": msgs, "data": data.hex(), "request": data.hex(), "label": f"physconst-sub:{i}"})
+    ops.append({"op": "multi-layer-decode", "msgs": msgs, "data": bytes([sid, (max(subs) + 1) & 0xFF if ((max(subs) + 1) & 0xFF) not in subs else 0, 0]).hex(),
+                "request": "00", "label": "physconst-sub:none"})
+    return ops
+
+
 def run_op(op, cache: dict):
     """executed inside a worker; returns the outcome under the *current* strict_mode"""
     from vlib import emit
     if op["op"] == "multi-layer-decode":
         key = core.canon({"msgs": op["msgs"]})
+        cache["__last__"] = key
         data = bytes.fromhex(op["data"])
         rq = bytes.fromhex(op["request"])
 
@@ -265,6 +297,7 @@ def run_op(op, cache: dict):
                     "dops": [sorted(d.short_name for d in dl.diag_data_dictionary_spec.data_object_props) for dl in db.diag_layers]}
         return _outcome(f)
     key = core.canon({"m": op["msg"]})
+    cache["__last__"] = key
     msg = core.unjson(op["msg"])
     rq = core.unjson(op.get("request"))
     if isinstance(rq, str):
@@ -327,6 +360,8 @@ def _worker(argv):
     else:
         cache_s: dict = {}
         cache_n: dict = {}
+        cache_x: dict = {}      # one database object used under both modes (the usual life of a loaded database)
+        loaded_strict: dict = {}
         for op in ops:
             ex.strict_mode = True
             s1 = run_op(op, cache_s)
@@ -334,7 +369,22 @@ def _worker(argv):
             n = run_op(op, cache_n)
             ex.strict_mode = True
             s2 = run_op(op, cache_s)
-            out.append({"S1": s1, "N": n, "S2": s2})
+            rec = {"S1": s1, "N": n, "S2": s2}
+            if op["op"] not in ("cli", "load-bad"):
+                cache_x.pop("__last__", None)
+                ex.strict_mode = True
+                x1 = run_op(op, cache_x)
+                k = cache_x.get("__last__")
+                if k is not None and k in cache_x and k not in loaded_strict:
+                    loaded_strict[k] = True
+                ex.strict_mode = False
+                xn = run_op(op, cache_x)
+                if k is not None and k in cache_x and k not in loaded_strict:
+                    loaded_strict[k] = False
+                ex.strict_mode = True
+                x2 = run_op(op, cache_x)
+                rec["X"] = {"S1": x1, "N": xn, "S2": x2, "loaded_strict": bool(loaded_strict.get(k))}
+            out.append(rec)
     with open(outp, "wb") as fh:
         pickle.dump(out, fh)
 
@@ -378,6 +428,15 @@ def judge(op, flip, born) -> list:
         if not (s1 == n == s2 == nb) and not fails:
             fails.append(F("cli-mode-not-applied", f"outcomes differ with the mode of the calling process: {json.dumps([s1, n, nb])[:400]}"))
         return fails
+    x = flip.get("X")
+    if x is not None and x["loaded_strict"]:
+        # the same loaded database used strict -> non-strict -> strict again
+        if x["S1"][0] == "ok" and x["N"] != x["S1"]:
+            fails.append(F("lenient-changes-valid-result:same-database", f"strict returned {json.dumps(x['S1'])[:300]} but non-strict "
+                                                                           f"on the same database object {json.dumps(x['N'])[:300]}"))
+        if x["S2"] != x["S1"]:
+            fails.append(F("strict-not-restored:same-database", f"strict again {json.dumps(x['S2'])[:300]} != first strict "
+                                                                 f"{json.dumps(x['S1'])[:300]} (same database object, used non-strict in between)"))
     if s1[0] == "ok" and n != s1:
         fails.append(F("lenient-changes-valid-result", f"strict returned {json.dumps(s1)[:300]} but non-strict {json.dumps(n)[:300]}"))
     if n != nb:
@@ -407,8 +466,8 @@ def run_shard(spec, seed, tier):
 
     @st.composite
     def strat(draw):
-        focus = draw(st.sampled_from([None, None, "emfield", "mux", "dlfield", "sfield", "eopf"]))
-        c = draw(gen.message_case(opts={"focus": focus}))
+        focus = draw(st.sampled_from([None, None, "emfield", "mux", "dlfield", "sfield", "eopf", "dtc"]))
+        c = draw(gen.message_case(opts={"focus": focus, "dtc_r": tuple(range(56, 72))} if focus == "dtc" else {"focus": focus}))
         muts = []
         allsites = list(mutvals.sites(c["msg"]["params"], c["values"]))
         for _ in range(2):
@@ -441,7 +500,7 @@ def run_shard(spec, seed, tier):
 
     @st.composite
     def nrc_strat(draw):
-        return nrc_service_ops(draw)
+        return nrc_service_ops(draw) + physconst_service_ops(draw)
 
     @hypothesis.seed(seed + 1)
     @core.hyp_settings(max(10, n // 10), shrink=False)
@@ -462,6 +521,10 @@ def run_shard(spec, seed, tier):
             t = fo["S1"][1]["tool"] if fo["S1"][0] == "ok" else ["?"]
             cls.add("cli:tool-raised" if t[0] == "exc" else "cli:tool-returned")
             cls.add("cli:" + ("no-strict" if op["no_strict"] else "strict"))
+        if fo.get("X") is not None and fo["X"]["loaded_strict"]:
+            cls.add("same-database")
+            if fo["X"]["S1"] != fo["X"]["N"]:
+                cls.add("same-database:strict-differs")
         differs = fo["S1"] != fo["N"]
         cls.add("strict-differs" if differs else "strict-same")
         if fo["S1"][0] == "ok":
